@@ -260,6 +260,53 @@ pub fn case_shapes() -> Vec<(String, Vec<Form>)> {
     out
 }
 
+/// binding forms in tail position of a procedure whose frame already holds the rebound name, captured earlier by a closure
+pub fn tail_binding_family() -> Vec<(String, Vec<Form>)> {
+    let lam = |fixed: &[&str], body: Body| Expr::Lambda(Formals { fixed: fixed.iter().map(|s| s.to_string()).collect(), rest: None }, Box::new(body));
+    let getter = |v: &str| Def { name: "get".into(), value: lam(&[], Body { defs: vec![], exprs: vec![var(v)] }), sugar: true };
+    let pair = |v: &str| app("list", vec![var(v), app("get", vec![])]);
+    let mut out = vec![];
+    let mk = |name: &str, v: &str, tail: Expr| -> (String, Vec<Form>) {
+        // ((lambda (v) (define (get) v) TAIL) 1)
+        (name.to_string(), vec![Form::Expr(Expr::App(Box::new(lam(&[v], Body { defs: vec![getter(v)], exprs: vec![tail] })), vec![Expr::Int(1)]))])
+    };
+    out.push(mk("tail let rebinding a parameter", "v", Expr::Let(vec![("v".into(), Expr::Int(2))], body1(pair("v")))));
+    out.push(mk("tail let* rebinding a parameter", "v", Expr::LetStar(vec![("v".into(), Expr::Int(2)), ("w".into(), var("v"))], body1(app("list", vec![var("v"), var("w"), app("get", vec![])])))));
+    out.push(mk("tail begin then let", "v", Expr::Begin(vec![Expr::Int(0), Expr::Let(vec![("v".into(), Expr::Int(3))], body1(pair("v")))])));
+    out.push(mk("tail cond clause with let", "v", Expr::Cond(vec![Clause::Then(Expr::Bool(true), vec![Expr::Let(vec![("v".into(), Expr::Int(4))], body1(pair("v")))])], None)));
+    out.push(mk("tail when with let", "v", Expr::When(Box::new(Expr::Bool(true)), vec![Expr::Int(0), Expr::Let(vec![("v".into(), Expr::Int(5))], body1(pair("v")))])));
+    out.push(mk("tail immediately applied lambda", "v", Expr::App(Box::new(lam(&["v"], Body { defs: vec![], exprs: vec![pair("v")] })), vec![Expr::Int(6)])));
+    out.push(mk("non-tail let (control)", "v", app("car", vec![app("list", vec![Expr::Let(vec![("v".into(), Expr::Int(2))], body1(pair("v")))])])));
+    // an internal definition of the enclosing body rebound by a tail let
+    out.push((
+        "tail let rebinding an internal definition".to_string(),
+        vec![Form::Expr(Expr::App(
+            Box::new(lam(
+                &[],
+                Body {
+                    defs: vec![Def { name: "n".into(), value: Expr::Int(1), sugar: false }, getter("n")],
+                    exprs: vec![Expr::Let(vec![("n".into(), Expr::Int(7))], body1(pair("n")))],
+                },
+            )),
+            vec![],
+        ))],
+    ));
+    // case over symbols that are also keywords of the bundled macros
+    let kw = |s: &str| Datum::Sym(s.to_string());
+    for key in ["else", "=>", "if", "zz"] {
+        let e = Expr::Case(
+            Box::new(Expr::Quote(kw(key))),
+            vec![
+                (vec![kw("if"), kw("then"), kw("else")], CaseBody::Exprs(vec![Expr::Quote(kw("branch-keyword"))])),
+                (vec![kw("->"), kw("=>")], CaseBody::Exprs(vec![Expr::Quote(kw("arrow"))])),
+            ],
+            Some(CaseBody::Exprs(vec![Expr::Quote(kw("other"))])),
+        );
+        out.push((format!("case with keyword symbols as data, key {}", key), vec![Form::Expr(e)]));
+    }
+    out
+}
+
 pub fn pair_family() -> Vec<(String, Vec<Form>)> {
     let mut out = vec![];
     let mut k = 0;
@@ -325,7 +372,7 @@ pub fn run(ctx: &Ctx) {
         judge(forms, &mut rep);
         Some(rep)
     });
-    for (sub, fam) in [("cond-shapes", cond_shapes()), ("case-shapes", case_shapes())] {
+    for (sub, fam) in [("cond-shapes", cond_shapes()), ("case-shapes", case_shapes()), ("tail-binding-forms", tail_binding_family())] {
         ctx.indexed(sub, fam.len() as u64, 1, |i| {
             let (name, forms) = &fam[i as usize];
             let mut rep = Report::new(format!("{} :: {}", name, program_text(forms)));
